@@ -1454,6 +1454,13 @@ DECODE_MORE:
 #ifdef USE_CLIENT_SIDE_SSL
                 matrixSslGetSessionId(ssl, ssl->sid);
 #endif          /* USE_CLIENT_SIDE_SSL */
+#ifdef USE_SERVER_SIDE_SSL
+                if ((ssl->flags & SSL_FLAGS_SERVER) && ssl->sessionIdLen > 0)
+                {
+                    /* The session can be resumed from now on. */
+                    matrixUpdateSession(ssl);
+                }
+#endif
                 rc = MATRIXSSL_HANDSHAKE_COMPLETE;
             }
             else
@@ -1685,6 +1692,12 @@ DECODE_MORE:
 #ifdef USE_CLIENT_SIDE_SSL
             matrixSslGetSessionId(ssl, ssl->sid);
 #endif      /* USE_CLIENT_SIDE_SSL */
+#ifdef USE_SERVER_SIDE_SSL
+            if ((ssl->flags & SSL_FLAGS_SERVER) && ssl->sessionIdLen > 0)
+            {
+                matrixUpdateSession(ssl);
+            }
+#endif
         }
 /*
          .      prevbuf points to start of unencrypted data
@@ -2207,6 +2220,12 @@ int32 matrixSslSentData(ssl_t *ssl, uint32 bytes)
 # ifdef USE_CLIENT_SIDE_SSL
         matrixSslGetSessionId(ssl, ssl->sid);
 # endif /* USE_CLIENT_SIDE_SSL */
+# ifdef USE_SERVER_SIDE_SSL
+        if ((ssl->flags & SSL_FLAGS_SERVER) && ssl->sessionIdLen > 0)
+        {
+            matrixUpdateSession(ssl);
+        }
+# endif
         rc = MATRIXSSL_HANDSHAKE_COMPLETE;
 # ifdef USE_SSL_INFORMATIONAL_TRACE
         /* Client side resumed completion or server standard completion */
